@@ -1700,12 +1700,12 @@ class BrowserLikeRedirectAgent(RedirectAgent):
     @since: 13.1
     """
 
-    _redirectResponses = [http.TEMPORARY_REDIRECT]
+    # 307 and 308 exist to forbid changing the request method.
+    _redirectResponses = [http.TEMPORARY_REDIRECT, http.PERMANENT_REDIRECT]
     _seeOtherResponses = [
         http.MOVED_PERMANENTLY,
         http.FOUND,
         http.SEE_OTHER,
-        http.PERMANENT_REDIRECT,
     ]
 
 
